@@ -156,7 +156,12 @@ func (i *MapIterator) Key() Object {
 // Value returns the value of the current element.
 func (i *MapIterator) Value() Object {
 	k := i.k[i.i-1]
-	return i.v[k]
+	v, ok := i.v[k]
+	if !ok {
+		// the key was deleted while iterating
+		return UndefinedValue
+	}
+	return v
 }
 
 // StringIterator represents an iterator for a string.
